@@ -58,6 +58,15 @@ def canonical(rla, joined=False):
             return "last run ends at %s, len is %s" % (ends[-1], len(rla))
     except Exception:
         pass
+    # the public run structure and the decoder must describe the same array
+    try:
+        if int(ends[-1]) <= 5000:
+            rebuilt = np.repeat(values, (ends - starts).astype(np.int64))
+            dec = np.asarray(rla.to_array())
+            if rebuilt.shape != dec.shape or not same_array(rebuilt, dec, dtype=False):
+                return "starts / ends / values describe %s but to_array() gives %s" % (rebuilt.tolist()[:12], dec.tolist()[:12])
+    except Exception as e:
+        return "the public run structure cannot be compared with to_array(): %r" % (e,)
     if joined and len(values) > 1:
         with np.errstate(all="ignore"):
             same = values[1:] == values[:-1]
